@@ -165,8 +165,55 @@ def replay_loader(case) -> dict:
     return dict(failures=fails, classes={"loader": 1})
 
 
+def replay_wedge(case) -> dict:
+    """Composition with the wedge geometry of spec/Wedge.tla: at the molecule's orientation the model uses the mask the
+    specification prescribes (every bin off a plane), and the score is the (centred / uncentred) normalised correlation of the
+    sub-volume and template after that mask."""
+    import warnings
+
+    from harness.lattice import rot_from_spec
+    from harness.props.c08 import _deg
+    from acryo.tilt import single_axis
+
+    cfg = case["cfg"]
+    shape = tuple(cfg["shape"])
+    R = rot_from_spec(cfg["R"])
+    quat = R.as_quat()
+    exp = np.array(case["mask"], dtype=int)
+    d0, d1 = _deg(cfg["tp"][0]), _deg(cfg["tp"][1])
+    rng = np.random.default_rng(case["seed"])
+    tmpl = rng.normal(size=shape).astype(np.float32)
+    sub = (0.6 * tmpl + rng.normal(size=shape)).astype(np.float32)
+    desc = dict(part="wedge", model=case["model"], shape=list(shape), cubic=len(set(shape)) == 1, rot24=cfg["R"]["d"] == 1,
+                identity=bool(np.allclose(R.as_matrix(), np.eye(3))), axis=cfg["axis"], tilt=[round(d0, 2), round(d1, 2)])
+    fails = []
+    with warnings.catch_warnings():
+        warnings.simplefilter("ignore")
+        model = _models()[case["model"]](tmpl, tilt=single_axis((d0, d1), axis=cfg["axis"]))
+        W = np.asarray(engine.api(model.get_missing_wedge_mask, quat), dtype=np.float64)
+        got = float(engine.api(model.score, sub, quat, ZERO))
+    if W.shape != exp.shape:
+        return dict(failures=[dict(desc, clause="WedgeMaskShape", observed=list(W.shape))])
+    bad = ((exp == 1) & (W < 0.5)) | ((exp == 0) & (W > 0.5))
+    if bad.any():
+        fails.append(dict(desc, clause="WedgeAtOrientation", nbad=int(bad.sum()), bin=[int(x) for x in np.argwhere(bad)[0]]))
+    a = np.fft.ifftn(np.fft.fftn(sub.astype(np.float64)) * W).real
+    b = np.fft.ifftn(np.fft.fftn(tmpl.astype(np.float64)) * W).real
+    if case["model"] == "ZNCC":
+        a, b = a - a.mean(), b - b.mean()
+    den = math.sqrt(float((a * a).sum() * (b * b).sum()))
+    if den < 1e-6:
+        return dict(failures=fails, classes={"degenerate": 1})
+    want = float((a * b).sum()) / den
+    if not abs(got - want) < 2e-3:
+        fails.append(dict(desc, clause="ScoreIsPearsonOfWedgeMasked", observed=got, expected=want))
+    return dict(failures=fails, classes={"wedge": 1})
+
+
 def replay(case) -> dict:
     k = case.get("part")
+    if k == "wedge":
+        return replay_wedge(case)
     if k == "relation":
         return replay_rel(case)
     if k == "loader":
@@ -195,9 +242,14 @@ def run(rep: engine.Report, tier: str, seed: int):
                                 rel.append(dict(part="relation", model=model, shape=list(shape), mask=mask, cutoff=cutoff, tilt=tilt, orient=orient,
                                                 seed=seed * 7919 + i + 100003 * rep_i, disp=[(1, -1, 0), (0, 1, 1), (-1, 0, 1), (1, 1, -1)][(i + rep_i) % 4]))
     ldr = [dict(part="loader", model=m, shape=list(s), seed=seed + j) for j, (m, s) in enumerate((m, s) for m in ("ZNCC", "NCC", "PCC") for s in shapes[:3])]
-    allc = exact + rel + ldr
+    wc = rep.add_tlc(engine.tlc("MC_C08", "MC_C08", workers=1, timeout=3000, tag="wedge"))
+    wsel = [c for c in wc.emitted if c["cfg"]["kind"] == "single" and min(c["cfg"]["shape"]) >= 2]
+    wsel = engine.stratified_sample(wsel, lambda c: (len(set(c["cfg"]["shape"])) == 1, c["cfg"]["R"]["d"] == 1, c["cfg"]["axis"], json.dumps(c["cfg"]["tp"])),
+                                    240 if tier == "quick" else 2400, seed)
+    wedge = [dict(part="wedge", model=("ZNCC", "NCC")[j % 2], cfg=c["cfg"], mask=c["mask"], seed=seed * 31 + j) for j, c in enumerate(wsel)]
+    allc = exact + rel + ldr + wedge
     results = engine.parallel_replay("harness.props.c07", "replay", allc)
-    engine.collect(rep, allc, results, key=lambda c: c.get("cfg") or c)
+    engine.collect(rep, allc, results, key=lambda c: (c.get("part"), c.get("model"), c["cfg"]) if c.get("part") == "wedge" else (c.get("cfg") or c))
     rep.traces_validated = len(allc)
     rep.samples = [dict(cfg=exact[0]["cfg"], score=exact[0]["score"]), rel[0], ldr[0]]
     rep.rule = (
@@ -205,9 +257,12 @@ def run(rep: engine.Report, tier: str, seed: int):
         f"soft x gain, and the 27-point ZNCC landscape incl. displaced templates ({len(exact)} cases, all replayed on Model.score/"
         f"landscape/align(0)); relations on float blobs: 4 models x 4 box shapes (odd/even/non-cubic) x masks x cutoffs x tilt x "
         f"orientation ({len(rel)} cases: bounds, self=1, gain/offset invariance, score=landscape centre=align(0).score, landscape "
-        f"arg-max = reported shift); loader.score / construct_landscape vs the model ({len(ldr)} cases)"
+        f"arg-max = reported shift); loader.score / construct_landscape vs the model ({len(ldr)} cases); wedge composition: "
+        f"{len(wedge)} (box, orientation, tilt pair, axis) cases with the exact mask of spec/Wedge.tla (TLC): the model's mask at the "
+        "molecule orientation agrees on every bin off a plane, and ZNCC/NCC score = normalised correlation after that mask"
     )
-    rep.assumptions += ["with cutoff/tilt only the stated relations are checked, not the Pearson value itself (needs an exact filtered DFT)"]
+    rep.assumptions += ["with a cutoff only the stated relations are checked, not the Pearson value itself (needs an exact filtered DFT); with a tilt "
+                        "model the value is checked against the correlation after the wedge mask (bins exactly on a wedge plane as the model has them)"]
 
 
 def replay_file(path: str) -> int:
